@@ -163,6 +163,7 @@ def skeleton_diff(want, got):
     wu, wr = split(want)
     gu, gr = split(got)
     d = [l for l in difflib.unified_diff(wr, gr, "recorded", "source", lineterm="", n=0) if not l.startswith(("---", "+++", "@@"))]
+    d = [l for l in d if not _new_private_scalar_const(l, wr, gr)]
     for key, paths in sorted(gu.items()):
         ind, pub, alias = key
         if key in wu:
@@ -174,6 +175,31 @@ def skeleton_diff(want, got):
         if key not in gu and key[1]:
             d.append("-pub use %s" % key[2])
     return d
+
+
+SCALAR_TYPES = "u8 u16 u32 u64 u128 usize i8 i16 i32 i64 i128 isize bool char".split()
+
+
+def _new_private_scalar_const(line, want_lines, got_lines):
+    """A NEW module-level `const NAME : <integer | bool | char> = <expr> ;` that is not `pub` (`pub(crate)` / `pub(super)`
+    count as private, as for functions) and whose name occurs in NO other line of the skeleton, recorded or current, is
+    not a difference: no type, array length, static, other constant, macro arm or signature mentions it, so it is
+    reachable only from function bodies -- like a private fn -- and those are what the function translators (which read
+    the constant's value: tools/rs2v/emit.py source_const), the pins and the correspondence cover; no hand model can
+    have relied on a name that did not exist.  Everything else about constants stays part of the skeleton: a recorded
+    constant that changes value / type or disappears, `pub` constants, statics, tables and struct-valued constants
+    (data of the table translators), associated constants (inside an impl: indented), a constant under an attribute
+    (its `#[cfg]` line is a difference of its own), and a constant that any other item mentions."""
+    import re
+    m = re.fullmatch(r"\+(?:pub \( [^()]* \) )?const ([A-Za-z_][A-Za-z0-9_]*) : (\w+) = (.+) ;", line)
+    if not m or m.group(2) not in SCALAR_TYPES or "{" in m.group(3):
+        return False
+    name = m.group(1)
+    word = re.compile(r"(?<![A-Za-z0-9_])%s(?![A-Za-z0-9_])" % re.escape(name))
+    own = line[1:]
+    if sum(1 for l in got_lines if l == own) != 1:
+        return False
+    return not any(word.search(l) for l in want_lines) and not any(word.search(l) for l in got_lines if l != own)
 
 
 def _is_pub(header):
